@@ -20,6 +20,7 @@ func init() {
 		Assumptions: []string{"generated getters GetX() return field X"},
 		Run:         runC14,
 		Controls: []Control{
+			{Name: "preset-looked-up-before-the-sort", File: "pkg/trait/openclosepb/model.go", Old: "\t\t\tsortPositions(positions.States)\n\n\t\t\tpositions.Preset, _ = m.presetForValue(positions.States)\n", New: "\t\t\tpositions.Preset, _ = m.presetForValue(positions.States)\n\t\t\tsortPositions(positions.States)\n\n", Expect: "R14.28"},
 			{Name: "positions-sorted-descending", File: "pkg/trait/openclosepb/model.go", Old: "\t\treturn int(a.Direction - b.Direction)", New: "\t\treturn int(b.Direction - a.Direction)", Expect: "R14.26"},
 			{Name: "preset-assigned-after-the-projection", File: "pkg/trait/openclosepb/model.go", Old: "\t\t\tpositions.Preset, _ = m.presetForValue(positions.States)\n\n\t\t\t// projection and filtering, positions refers to stored values so must not be modified in place\n\t\t\tpositions = responseFilter.FilterClone(positions).(*traits.OpenClosePositions)\n", New: "\t\t\t// projection and filtering, positions refers to stored values so must not be modified in place\n\t\t\tpositions = responseFilter.FilterClone(positions).(*traits.OpenClosePositions)\n\t\t\tpositions.Preset, _ = m.presetForValue(positions.States)\n", Expect: "R14.25"},
 			{Name: "positions-read-options-forwarded-to-the-items", File: "pkg/trait/openclosepb/model.go", Old: "\t\tfor change := range m.positions.Pull(ctx) {\n", New: "\t\tfor change := range m.positions.Pull(ctx, ops...) {\n", Expect: "R14.18"},
@@ -209,6 +210,12 @@ func runC14(c *an.Ctx) {
 	c.Min("R14.24", 4)
 	shareAs(c, "R10.5", "R14.27", r105, nil) // an open Pull stream keeps receiving after ANOTHER stream of the register was cancelled: the registry drops the dead listener, keeps the live ones (shared with R10.5)
 	c.Min("R14.27", 2)
+	r1428(c, "R14.28")
+	c.Min("R14.28", 1)
+	r0117as(c, "R14.29") // the Update response is what the next Get returns: the save callback stores the merged message (shared with R01.17)
+	c.Min("R14.29", 2)
+	shareAs(c, "R06.7", "R14.30", r066, nil) // a masked Get is the projection of the full Get: covered paths are dropped before fmutils sees them (shared with R06.7)
+	c.Min("R14.30", 1)
 	r1426(c, "R14.26")
 	c.Min("R14.26", 1)
 	r1425(c, "R14.25")
@@ -1506,4 +1513,46 @@ func derivesFromParam(v ssa.Value, p *ssa.Parameter) bool {
 		return false
 	}
 	return visit(v)
+}
+
+// r1428: Pull looks the preset up on the states in the order Get has them. presetForValue compares the states
+// element by element with the preset's positions, which are kept in direction order; Get reads them from the
+// collection in that order, Pull folds them into a map and has to sort before it asks - looked up on the map's
+// iteration order no preset is found, and a new Pull does not start with the value Get returns.
+func r1428(c *an.Ctx, rule string) {
+	n := 0
+	for _, fn := range c.Prog.FuncsIn("pkg/trait/openclosepb") {
+		if c.Prog.IsGenerated(fn.Pos()) {
+			continue
+		}
+		var sorts, lookups []*ssa.Call
+		an.Instrs(fn, func(in ssa.Instruction) {
+			call, ok := in.(*ssa.Call)
+			if !ok {
+				return
+			}
+			switch {
+			case strings.HasSuffix(an.CalleeName(call), "openclosepb.sortPositions"):
+				sorts = append(sorts, call)
+			case strings.HasSuffix(an.CalleeName(call), "openclosepb.Model).presetForValue"):
+				lookups = append(lookups, call)
+			}
+		})
+		if len(sorts) == 0 {
+			continue // (Get lists the collection, which is sorted already)
+		}
+		for i, lk := range lookups {
+			n++
+			sorted := false
+			for _, s := range sorts {
+				if an.Dominates(s, lk) {
+					sorted = true
+				}
+			}
+			c.SawFunc(an.FuncName(fn))
+			c.Check(sorted, rule, fmt.Sprintf("%s|preset look-up #%d follows the sort", an.FuncName(fn), i+1), lk.Pos(), "sortPositions dominates presetForValue",
+				"the preset is looked up before the folded states are sorted: the element-wise comparison with the preset's positions fails on the map's iteration order, so Pull carries no preset where Get does")
+		}
+	}
+	c.Count("preset_lookups_after_a_fold", n)
 }
